@@ -15,7 +15,15 @@ RULE = ('compute_features on generated signals (12 kinds x 8 sampling rates, 150
         'model comparison). Statement oracle: table instead of raising when the reference band-pass has >= 3 full '
         'oscillations beyond the boundary; one row per cycle of the reference band-pass (closed half-waves whose raw '
         'extremum survives the boundary) with every row inside its own half-waves; ordering, bounds, tiling; the same on '
-        'the Bycycle.fit table. non-trivial = table with >= 3 rows')
+        'the Bycycle.fit table. '
+        'Independently of everything else ~30 % of the cases make the judged analysis on an ndarray object that was '
+        'first filled with another signal of the same length and analysed once with the same option objects, then '
+        'refilled in place (`prebuffer`); ~20 % pass every array of the case read-only (WRITEABLE flag cleared); ~20 % '
+        "make 1-2 rejected calls (mis-spelt key put into the caller's own find_extrema_kwargs / threshold_kwargs and "
+        "taken out again, invalid f_range, centre or burst method) on the case's own array and option objects directly "
+        'before the judged analysis; all oracles and the model comparison apply to the judged analysis unchanged '
+        '(counters in the evidence). '
+        'non-trivial = table with >= 3 rows')
 ASSUMPTIONS = ['signals finite, longer than the filter, >= 3 oscillations in band',
                'library-level exceptions cannot be exhibited by the model: "returns a table instead of raising" is '
                'established for the real code only on the explored grid',
@@ -28,7 +36,10 @@ def cases(rng, tier):
 
 
 run_impl = pipeline.run_pipe
-oracle = pipeline.oracle_structure
+
+
+def oracle(c, o):
+    return pipeline.with_context(c, pipeline.oracle_structure(c, o))
 
 
 def nontrivial(c, o):
